@@ -651,41 +651,46 @@ def check_data_modes(chk, tus, rule):
     f = ctu.functions.get('wasmCWriteDataSegmentsFromSection')
     chk.require(f is not None, 'anchor wasmCWriteDataSegmentsFromSection not found')
     body = astdb.fn_body(f)
-    loops = [l for l in walk(body) if l.get('kind') == 'ForStmt' and any(c.get('kind') == 'CallExpr' and astdb.callee_name(c) == 'fwrite' for c in walk(l))]
-    chk.require(len(loops) == 1, 'blob writer: %d loops with fwrite' % len(loops))
-    loop = loops[0]
-    cond = astdb.expr_text(strip(loop['inner'][2], casts=True))
-    lb = loop['inner'][4]
-    inits = {}
-    for d in walk(lb):
-        if d.get('kind') == 'VarDecl' and d.get('init'):
-            inits[d['name']] = astdb.expr_text(strip([c for c in kids(d) if c.get('kind')][-1], casts=True))
-    fw = [c for c in walk(lb) if c.get('kind') == 'CallExpr' and astdb.callee_name(c) == 'fwrite'][0]
-    a = [astdb.expr_text(strip(x, casts=True)) for x in astdb.call_args(fw)]
-    seg = [k for k, v in inits.items() if re.fullmatch(r'module->dataSegments\.dataSegments\[(\w+)\]', v)]
-    ok = bool(seg) and a[0] == seg[0] + '.bytes.data' and astdb.const_int(astdb.call_args(fw)[1]) == 1 and \
-        (a[2] == seg[0] + '.bytes.length' or inits.get(a[2]) == seg[0] + '.bytes.length')
-    # unconditional: the fwrite is not nested in an if/switch/conditional and nothing can skip it
-    top = [s_ for s_ in lb.get('inner', []) if s_.get('kind')]
-    uncond = any(any(x is fw for x in walk(s_)) and s_.get('kind') in ('DeclStmt', 'CallExpr', 'BinaryOperator') for s_ in top)
-    skips = [x.get('kind') for x in walk(lb) if x.get('kind') in ('ContinueStmt', 'BreakStmt', 'GotoStmt')]
-    m = re.fullmatch(r'(\w+)\s*<\s*(\w+)', cond)
-    bound_ok = m is not None and (inits.get(m.group(2)) or _fn_init(body, m.group(2))) in ('module->dataSegments.count',)
+    def for_loop_shape():
+        """the writer as the tree has it today - one for loop with one unconditional fwrite of the whole segment - recognised on the AST;
+        None for any other shape (a while loop, a helper, ...), which the decision on bytes below covers"""
+        loops = [l for l in walk(body) if l.get('kind') == 'ForStmt' and any(c.get('kind') == 'CallExpr' and astdb.callee_name(c) == 'fwrite' for c in walk(l))]
+        if len(loops) != 1:
+            return None
+        loop = loops[0]
+        cond = astdb.expr_text(strip(loop['inner'][2], casts=True))
+        lb = loop['inner'][4]
+        inits = {}
+        for d in walk(lb):
+            if d.get('kind') == 'VarDecl' and d.get('init'):
+                inits[d['name']] = astdb.expr_text(strip([c for c in kids(d) if c.get('kind')][-1], casts=True))
+        fw = [c for c in walk(lb) if c.get('kind') == 'CallExpr' and astdb.callee_name(c) == 'fwrite'][0]
+        a = [astdb.expr_text(strip(x, casts=True)) for x in astdb.call_args(fw)]
+        seg = [k for k, v in inits.items() if re.fullmatch(r'module->dataSegments\.dataSegments\[(\w+)\]', v)]
+        ok = bool(seg) and a[0] == seg[0] + '.bytes.data' and astdb.const_int(astdb.call_args(fw)[1]) == 1 and \
+            (a[2] == seg[0] + '.bytes.length' or inits.get(a[2]) == seg[0] + '.bytes.length')
+        # unconditional: the fwrite is not nested in an if/switch/conditional and nothing can skip it
+        top = [s_ for s_ in lb.get('inner', []) if s_.get('kind')]
+        uncond = any(any(x is fw for x in walk(s_)) and s_.get('kind') in ('DeclStmt', 'CallExpr', 'BinaryOperator') for s_ in top)
+        skips = [x.get('kind') for x in walk(lb) if x.get('kind') in ('ContinueStmt', 'BreakStmt', 'GotoStmt')]
+        m = re.fullmatch(r'(\w+)\s*<\s*(\w+)', cond)
+        bound_ok = m is not None and (inits.get(m.group(2)) or _fn_init(body, m.group(2))) in ('module->dataSegments.count',)
+
+        return ok and uncond and not skips and bound_ok, a, cond, uncond, skips
+    shp = for_loop_shape()
+    recognised = shp is not None and shp[0]
     # decision on bytes (second decision, and the decision for a writer of another shape): the function is partially evaluated on modules
     # whose segments have the lengths 3, 0, 2, 5 / 0, 0 / 4 (empty segments included) with a model of fwrite that has its return-value
     # semantics (number of complete items; 0 for a zero size or count): the file must receive the concatenation of all segments
     bytes_bad = concrete_blob_writer(it, modes['wasmDataSegmentModeGNULD'])
-    if not (ok and uncond and not skips and bound_ok) and bytes_bad is None:
+    if not recognised and bytes_bad is None:
         chk.ok(rule, 'blob-writer', 'writer of another shape; on concrete modules the blob is the concatenation of all segments')
         return
     if bytes_bad is not None:
         chk.fail(rule, 'blob-writer', 'the data-segment blob writer: %s - the blob must contain every segment, in order, with its full length, because '
                  'InitMemories addresses it by prefix sums' % bytes_bad, 'wasmCWriteDataSegmentsFromSection:blob')
         return
-    chk.expect(ok and uncond and not skips and bound_ok, rule, 'blob-writer',
-               'the data-segment blob writer does fwrite(%s) in a loop over %r (unconditional: %s, skips: %r): the blob must contain every '
-               'segment, in order, with its full length, because InitMemories addresses it by prefix sums' % (', '.join(a), cond, uncond, skips),
-               'wasmCWriteDataSegmentsFromSection:blob')
+    chk.ok(rule, 'blob-writer', 'one unconditional fwrite of every whole segment; on concrete modules the blob is the concatenation of all segments')
 
 
 def concrete_blob_writer(it, mode):
